@@ -429,6 +429,128 @@ pub fn check_random(tape: &[u16], rc: &mut RCase) -> Result<(), Failure> {
     judge(&store, &q, rc)
 }
 
+/// Several blocks in one transaction: a collateral block and one or two input blocks whose names
+/// sort before and after "collateral" (blocks are resolved in name order). Completeness is
+/// asserted only where it cannot depend on the selector's choices: every input block has a
+/// feasible candidate outside the candidate sets of the *other input blocks* (collateral may
+/// overlap an input), and the collateral block has a feasible candidate.
+pub fn check_multi_block(tape: &[u16], rc: &mut RCase) -> Result<(), Failure> {
+    let mut t = Tape::new(tape);
+    let n = 1 + t.pick(5);
+    let store: Vec<U> = (0..n)
+        .map(|id| U {
+            id,
+            addr: t.pick(2),
+            lovelace: [2i128, 5, 9][t.pick(3)],
+            t: if t.chance(1, 3) { 1 + t.pick(3) as i128 } else { 0 },
+            u: 0,
+        })
+        .collect();
+    let names = ["a_in", "source"];
+    let n_inputs = 1 + t.pick(2);
+    let mut blocks: Vec<(String, Q)> = vec![];
+    for i in 0..n_inputs {
+        let name = if n_inputs == 1 { names[t.pick(2)] } else { names[i] };
+        blocks.push((
+            name.to_string(),
+            Q {
+                address: Some(t.pick(2)),
+                refs: RefSpec::None,
+                min: if t.flag() { Some(([0i128, 2, 5][t.pick(3)], if t.chance(1, 4) { 1 } else { 0 }, 0)) } else { None },
+                many: t.chance(1, 4),
+                collateral: false,
+            },
+        ));
+    }
+    let coll = Q { address: Some(t.pick(2)), refs: RefSpec::None, min: if t.flag() { Some(([0i128, 2, 5][t.pick(3)], 0, 0)) } else { None }, many: false, collateral: true };
+    let mut tx = one_block_tx("unused", mk_query(&coll));
+    tx.inputs.clear();
+    for (name, q) in &blocks {
+        tx.inputs.push(tir::Input {
+            name: name.clone(),
+            utxos: tir::Expression::EvalParam(Box::new(tir::Param::ExpectInput(name.clone(), mk_query(q)))),
+            redeemer: tir::Expression::None,
+        });
+    }
+    tx.collateral.push(tir::Collateral { utxos: tir::Expression::EvalParam(Box::new(tir::Param::ExpectInput("collateral".into(), mk_query(&coll)))) });
+    let rendered = || {
+        json!({
+            "store": render(&store, &coll)["store"],
+            "collateral": render(&store, &coll)["query"],
+            "inputs": blocks.iter().map(|(n, q)| json!({"name": n, "query": render(&store, q)["query"]})).collect::<Vec<_>>(),
+        })
+    };
+    let feasible_of = |q: &Q| -> Vec<usize> {
+        let c = candidates(q, &store);
+        if q.many {
+            let s = c.iter().fold((0, 0, 0), |a, u| (a.0 + u.lovelace, a.1 + u.t, a.2 + u.u));
+            if !c.is_empty() && covers(s, q.min) {
+                c.iter().map(|u| u.id).collect()
+            } else {
+                vec![]
+            }
+        } else {
+            c.iter().filter(|u| covers((u.lovelace, u.t, u.u), q.min)).map(|u| u.id).collect()
+        }
+    };
+    let mem = MemStore::new(store.iter().map(mk_utxo).collect());
+    let res = match guard(|| block_on(inputs::resolve(AnyTir::V1Beta0(tx), &mem))) {
+        Ok(r) => r,
+        Err(p) => return Err(Failure::new(format!("panic:{}", p.sig()), p.message, rendered())),
+    };
+    let key = hash64(&format!("{:?}{:?}{:?}", store, blocks, coll));
+    // does completeness apply independently of the selector's choices?
+    let mut must_succeed = !feasible_of(&coll).is_empty();
+    for (i, (_, q)) in blocks.iter().enumerate() {
+        // single-UTxO blocks only: what a multi-UTxO block takes depends on the selector
+        if q.many {
+            must_succeed = false;
+        }
+        let others: std::collections::BTreeSet<usize> =
+            blocks.iter().enumerate().filter(|(j, _)| *j != i).flat_map(|(_, (_, oq))| candidates(oq, &store).into_iter().map(|u| u.id)).collect();
+        if !feasible_of(q).iter().any(|id| !others.contains(id)) {
+            must_succeed = false;
+        }
+    }
+    match res {
+        Ok(AnyTir::V1Beta0(resolved)) => {
+            rc.label("multi_block:resolved");
+            // soundness per block + disjointness of input blocks
+            let mut seen = std::collections::BTreeSet::new();
+            for (i, (name, q)) in blocks.iter().enumerate() {
+                let Some(set) = bound_set(&resolved, i) else { continue };
+                for sel in &set {
+                    let Some(orig) = store.iter().find(|u| uref(u.id) == sel.r#ref) else {
+                        return Err(Failure::new("soundness:selected_utxo_not_in_store", format!("{}", sel.r#ref), rendered()));
+                    };
+                    if !constraint_ok(q, orig) {
+                        return Err(Failure::new("soundness:constraint_violated_in_multi_block", format!("block {} got {}", name, sel.r#ref), rendered()));
+                    }
+                    if !seen.insert(orig.id) {
+                        return Err(Failure::new("soundness:utxo_shared_by_two_input_blocks", format!("{}", sel.r#ref), rendered()));
+                    }
+                }
+            }
+            rc.record(key, true, rendered);
+            Ok(())
+        }
+        Err(tx3_resolver::Error::InputNotResolved(name, ..)) => {
+            rc.label("multi_block:not_resolved");
+            if must_succeed {
+                return Err(Failure::new(
+                    "completeness:block_unresolved_although_an_untaken_candidate_covers_it",
+                    format!("block `{}` reported as unresolved; every input block has a feasible candidate no other input block can take and collateral has one too", name),
+                    rendered(),
+                ));
+            }
+            rc.record(key, true, rendered);
+            Ok(())
+        }
+        Err(tx3_resolver::Error::InputQueryTooBroad) => Ok(()),
+        Err(e) => Err(Failure::new("unexpected_error", format!("{:?}", e), rendered())),
+    }
+}
+
 pub fn run(tier: Tier, seed: u64) -> Report {
     let mut r = Report::new("C03", tier, seed);
     r.rule = "(store, query) pairs. Small scope, enumerated completely: every store of <=2 UTxOs (quick; <=3 thorough) over \
@@ -437,7 +559,9 @@ pub fn run(tier: Tier, seed: u64) -> Report {
               input/collateral); stores of one more UTxO sampled. Random: up to 60 UTxOs over 3 addresses, amounts up to \
               2^62, multi-ref queries. Oracle: soundness of every selected set + completeness when the statement's candidate \
               set has <=50 members and is feasible. distinct = hash(store, query); non-trivial = >=2 constraints stated, or \
-              candidate set differs from the UTxOs at the address, or store > 50"
+              candidate set differs from the UTxOs at the address, or store > 50. A further phase puts a collateral block and \
+              1..2 input blocks (names sorting before and after `collateral`) in one transaction and asserts completeness \
+              where it cannot depend on the selector's choices"
         .into();
     r.assumptions = vec![
         "stores are zero-free (as an indexer returns them); min_amount entries are non-negative".into(),
@@ -467,6 +591,7 @@ pub fn run(tier: Tier, seed: u64) -> Report {
         judge(&store, &q, rc)
     });
     r.explore("random_stores", tier.pick(60_000, 2_000_000), 400, &|t, rc| check_random(t, rc));
+    r.explore("collateral_and_inputs_in_one_tx", tier.pick(60_000, 1_000_000), 120, &|t, rc| check_multi_block(t, rc));
     r
 }
 
@@ -475,6 +600,8 @@ pub fn replay(phase: &str, tape: &[u16], seed: u64) -> Report {
     r.strict = true;
     if phase == "random_stores" {
         r.explore_list(phase, &[tape.to_vec()], &|t, rc| check_random(t, rc));
+    } else if phase == "collateral_and_inputs_in_one_tx" {
+        r.explore_list(phase, &[tape.to_vec()], &|t, rc| check_multi_block(t, rc));
     } else {
         let i = ((tape[0] as u64) << 48) | ((tape[1] as u64) << 32) | ((tape[2] as u64) << 16) | tape[3] as u64;
         let size: usize = phase.rsplit('_').next().and_then(|s| s.parse().ok()).unwrap_or(1);
